@@ -583,6 +583,10 @@ def check_nlp(ctx):
         if fo:
             rep["why"] = fo
             ctx.violation("C20:flags:%s:%s" % (k, fo.split(" ")[0]), "%s: %s" % (k, fo), rep)
+        if k == "wrapref" and (o.get("ref_aliases") is False or o.get("ref_sees_mutation") is False):
+            rep["why"] = ("problem_with_counters_ref: the wrapper does not refer to the problem it was given (aliases=%s, a later change of the problem "
+                          "is seen through the wrapper=%s)" % (o.get("ref_aliases"), o.get("ref_sees_mutation")))
+            ctx.violation("C20:not-transparent:wrapref:holds-a-copy", rep["why"], rep)
         if k in ("wrap", "wrapref", "dlwrap"):
             co = counters_oracle(o, NLP_FIELDS, have_log=(k != "dlwrap"))
             if co:
@@ -686,6 +690,9 @@ def check_ocp(ctx):
         if d:
             rep.update(reference_output=r, why=d[1])
             ctx.violation("C20:not-transparent:ocp-%s:%s" % (k, d[0]), "ocp %s: %s" % (k, d[1]), rep)
+        if k == "wrapref" and o.get("ref_aliases") is False:
+            rep["why"] = "ocproblem_with_counters_ref: the wrapper does not refer to the problem it was given"
+            ctx.violation("C20:not-transparent:ocp-wrapref:holds-a-copy", rep["why"], rep)
         if k in ("wrap", "wrap0", "wrapref", "dlwrap") and "methods" in o:
             co = counters_oracle(o, OCP_FIELDS, have_log=(k != "dlwrap"))
             if co:
